@@ -1,17 +1,46 @@
 """C06 -- the real part is transparent and alone decides comparisons and branches."""
 from .common import *
 from .machine import *
+from .special import report_known
 
 OPS = ["add", "sub", "mul", "div", "add_f", "mul_f", "neg", "abs", "signum", "inv", "sqrt", "exp", "sin", "ln",
        "powi", "powf", "mul_add", "abs_sub", "sum", "product", "is_zero", "is_one", "is_positive", "is_negative", "re"]
 
 
+def transparent_run():
+    return run_tlc("Transparent.tla", cfg(invariants=["NoPartInRe", "ReIsProgram", "PredOnRe", "PartsDoDepend", "ExportTransp"]),
+                   "transparent", workers=4, timeout=600)
+
+
 def run(tier):
     kinds = KINDS_QUICK if tier == "quick" else KINDS_THOROUGH
-    chk, _ = machine_check("C06", tier, "AllOps", OPS, kinds, ["ReTransparent"], "tworun",
+    chk, extra = machine_check("C06", tier, "AllOps", OPS, kinds, ["ReTransparent"], "tworun",
                            "two-run replay (same real parts, different derivative parts)",
                            "one case = (concrete type, operation, form); TLC checks ReTransparent (real part of every result = "
                            "the operation on plain rationals) on every transition; the harness replays every behaviour twice "
                            "with identical real parts and different derivative parts: real parts must agree bit for bit, "
-                           "predicates and comparisons must agree, and both must equal the model")
+                           "predicates and comparisons must agree, and both must equal the model; Transparent.tla proves on "
+                           "symbolic derivative parts that no part can occur in a real part and exports the operation table "
+                           "swept over random and special floats (NaN / infinite / absent parts, plain-float instances)",
+                           extra_jobs=[transparent_run])
+    tp = extra[0]
+    chk.add_tlc(tp, "symbolic operands (constant real part, every derivative scalar an indeterminate): NoPartInRe, ReIsProgram, "
+                    "PredOnRe for every type x operation x presence pattern")
+    if tp.violated:
+        chk.model_violation(tp, "Transparent")
+    else:
+        rep = run_harness("hcore", ["transparent", tp.out_path, "--seed", str(seed()), "--samples", "20" if tier == "quick" else "400"])
+        chk.cov["evaluations"] += rep["evaluations"]
+        chk.cov["traces_validated_against_impl"] += rep["transparency_comparisons"]
+        for k in ("transparency_comparisons", "plain_comparisons", "predicate_checks", "comparison_checks", "bit_identical_to_std",
+                  "same_call_rows_not_bit_identical"):
+            chk.cov[k] = rep[k]
+        chk.cov["float_sweep_types"] = rep["types"]
+        for o in rep["ops"]:
+            chk.distinct.add("sweep|" + o)
+        report_known(chk, rep, "C06", how="evaluations, one per type, at exactly the listed input with exactly the listed result")
+        for v in rep["violations"]:
+            chk.violation("%s: %s %s" % (v.get("what"), v.get("key"), v.get("op")), {"kind": "transparent-case", **v})
+        if rep["types"] < 45 or len(rep["ops"]) < 40 or rep["plain_comparisons"] < 20000:
+            raise ToolError("vacuity: transparency sweep covered %d types, %d operations" % (rep["types"], len(rep["ops"])))
     return chk.finish(extra={"exhaustive": True})
